@@ -121,6 +121,11 @@ def run(ctx):
                     walks, steps = (4, 400) if quick else (6, 10000)
                     o = common + ["--walks", walks, "--steps", steps] + (["--exclude", ",".join(excl)] if excl else [])
                     jobs.append(((automata[kind], kind, fl, cap, "random", o), {"salt": 200 + n}))
+                # hand-over to a second PROCESS (fresh exec of the driver: other code / stack / heap / mapping addresses):
+                # the image taken here is adopted there, must show the same abstract state and the walk continues there
+                hf = ctx.path("handoff", f"{kind}-{fl}-{cap}.json")
+                jobs.append(((automata[kind], kind, fl, cap, "handoff",
+                              common + ["--walks", 6 if quick else 60, "--steps", 24, "--handoff-file", hf]), {"salt": 300}))
                 tf = ctx.path("traces", f"{kind}-{fl}-{cap}.ndjson")
                 walks, steps = (2, 60) if quick else (3, 150)
                 o = common + ["--walks", walks, "--steps", steps, "--trace-out", tf] + (["--exclude", "insert_at"] if kind == "slotmap" else [])
@@ -132,6 +137,8 @@ def run(ctx):
     vp.log(f"{len(jobs)} driver runs in {ctx.elapsed() - t0:.0f}s; slowest: " + "; ".join(
         f"{s['kind']}/{s['flavour']}/{s['cap']} {s['mode']} {s['wall']}s" for s in slow))
     relocations = 0
+    handed = second_steps = 0
+    xproc = []
     clean_traces = set()
     not_constructible = set()
     crashed = []
@@ -158,8 +165,14 @@ def run(ctx):
             clean_traces.add(s["opts"][s["opts"].index("--trace-out") + 1])
         if s.get("sample") and any(x.startswith("relocate") for x in s["sample"]):
             ctx.sample({"structure": key, "mode": s["mode"], "history": s["sample"]})
+        if s["mode"] == "handoff":
+            handed += det.get("handed_over", 0)
+            second_steps += det.get("steps_in_second_process", 0)
         for d in s["divergences"]:
             cls = d["class"]
+            if cls.endswith(":other-process"):
+                xproc.append((cls, d, s))
+                continue
             if not cls.endswith(":relocated"):
                 other[cls] = other.get(cls, 0) + d["count"]
                 continue
@@ -173,6 +186,21 @@ def run(ctx):
                     f"[{cls}, {d['count']} paths]")
             ctx.report(vp.Violation(what, replay={"class": cls, "example": ex, "automaton": s["automaton"], "opts": s["opts"]},
                                     signature=cls))
+    for cls, d, s in xproc:
+        base = cls[:-len(":other-process")]
+        if base in other or (base + " (also without relocation)") in other:
+            other[cls + " (same class without hand-over)"] = d["count"]
+            continue
+        ex = d["example"]
+        what = (f"{s['kind']}/{s['flavour']} cap={s['cap']}: after {ex.get('history_in_first_process')} the memory image of the "
+                f"structure was handed to a second process (fresh exec, other addresses) which adopted it byte for byte; there: "
+                f"{json.dumps(ex.get('in_second_process') or {k: ex.get(k) for k in ('second_process_exit', 'second_process')})[:700]} "
+                f"[{cls}, {d['count']} walks] - the structure is not position independent across processes")
+        ctx.report(vp.Violation(what, replay={"class": cls, "example": ex, "automaton": s["automaton"], "opts": s["opts"]},
+                                signature=cls))
+    ctx.coverage["cross_process_handover"] = {"images_handed_to_a_second_process": handed, "steps_executed_there": second_steps}
+    if not ctx.violations and handed == 0:
+        raise vp.ToolError("vacuous: no image was handed to a second process")
     for s in crashed:
         what = (f"{s['kind']}/{s['flavour']} cap={s['cap']} ({s['mode']}): the child process died with signal "
                 f"{s['crash']['signal']} while walking with relocations (access to the poisoned old block); "
